@@ -159,9 +159,15 @@ def nonnone_containers(trees: list[ast.Module]) -> set[str]:
             for s in ast.walk(fn):
                 if isinstance(s, ast.Assign) and len(s.targets) == 1 and isinstance(s.targets[0], ast.Name):
                     multi[s.targets[0].id] = multi.get(s.targets[0].id, 0) + 1
+            attr_locals = {s.targets[0].id: s.value.attr for s in ast.walk(fn) if isinstance(s, ast.Assign) and len(s.targets) == 1
+                           and isinstance(s.targets[0], ast.Name) and isinstance(s.value, ast.Attribute)}
             for s in ast.walk(fn):
                 if isinstance(s, ast.Assign):
                     for tg in s.targets:
+                        if isinstance(tg, ast.Subscript) and isinstance(tg.value, ast.Name) and tg.value.id in attr_locals and multi.get(tg.value.id) == 1:
+                            # a hoisted container (`_callbacks = self.gateway._channelfactory._callbacks`)
+                            tg = ast.Subscript(value=ast.Attribute(value=ast.Name(id="_", ctx=ast.Load()), attr=attr_locals[tg.value.id], ctx=ast.Load()),
+                                               slice=tg.slice, ctx=tg.ctx)
                         if isinstance(tg, ast.Subscript) and isinstance(tg.value, ast.Attribute):
                             v = s.value
                             good = isinstance(v, (ast.Tuple, ast.List, ast.Dict, ast.Set)) or \
@@ -246,6 +252,46 @@ class Normaliser:
             i += 1
         return stmts
 
+    def lookup_or_return(self, body: list[ast.stmt]) -> list[ast.stmt]:
+        """function body:   try: T = D.pop(K) | D[K]            T = D.pop(K, None) | D.get(K)
+                            except KeyError: return      ==>    if T is not None: REST
+                            REST"""
+        for i, st in enumerate(body):
+            if not (isinstance(st, ast.Try) and not st.finalbody and not st.orelse and len(st.handlers) == 1 and len(st.body) == 1
+                    and _is_keyerror(st.handlers[0].type) and not st.handlers[0].name and i + 1 < len(body)):
+                continue
+            h = st.handlers[0].body
+            if not (len(h) == 1 and isinstance(h[0], ast.Return) and (h[0].value is None or (isinstance(h[0].value, ast.Constant) and h[0].value.value is None))):
+                continue
+            b = st.body[0]
+            if not (isinstance(b, ast.Assign) and len(b.targets) == 1 and isinstance(b.targets[0], (ast.Name, ast.Tuple))):
+                continue
+            v = b.value
+            if isinstance(v, ast.Subscript) and isinstance(v.value, ast.Attribute) and not isinstance(v.slice, ast.Slice) and v.value.attr in self.nonnone:
+                call = ast.Call(func=ast.Attribute(value=v.value, attr="get", ctx=ast.Load()), args=[v.slice], keywords=[])
+            elif isinstance(v, ast.Call) and isinstance(v.func, ast.Attribute) and v.func.attr == "pop" and len(v.args) == 1 and not v.keywords \
+                    and isinstance(v.func.value, ast.Attribute) and v.func.value.attr in self.nonnone:
+                call = ast.Call(func=v.func, args=[v.args[0], ast.Constant(value=None)], keywords=[])
+            else:
+                continue
+            rest = body[i + 1:]
+            if any(isinstance(x, (ast.Yield, ast.YieldFrom)) for t in body for x in ast.walk(t)):
+                continue
+            if isinstance(b.targets[0], ast.Name):
+                name = b.targets[0].id
+                pre: list[ast.stmt] = []
+            else:
+                name = "item_h"
+                pre = [ast.Assign(targets=b.targets, value=ast.Name(id=name, ctx=ast.Load()))]
+            first = ast.fix_missing_locations(ast.copy_location(ast.Assign(targets=[ast.Name(id=name, ctx=ast.Store())], value=call), st))
+            for x in pre:
+                ast.fix_missing_locations(ast.copy_location(x, st))
+            test = ast.Compare(left=ast.Name(id=name, ctx=ast.Load()), ops=[ast.IsNot()], comparators=[ast.Constant(value=None)])
+            second = ast.fix_missing_locations(ast.copy_location(ast.If(test=test, body=pre + self.lookup_or_return(rest), orelse=[]), st))
+            self.hit("try-lookup-return->guarded-rest")
+            return body[:i] + [first, second]
+        return body
+
     def stmt(self, st: ast.stmt) -> list[ast.stmt]:
         # children first
         for fld in ("body", "orelse", "finalbody"):
@@ -269,6 +315,8 @@ class Normaliser:
             elif isinstance(v, list) and v and isinstance(v[0], ast.keyword):
                 for k in v:
                     k.value = self.expr(k.value)
+        if isinstance(st, (ast.FunctionDef, ast.AsyncFunctionDef)):
+            st.body = self.lookup_or_return(st.body)
         if isinstance(st, ast.Try):
             r = self.try_lookup(st)
             if r is not None:
